@@ -388,7 +388,12 @@ def suite_cf_crs_units(ctx):
     """the unit of the CRS and the unit of the stored coordinate vectors are independent: a grid mapping whose CRS counts in
     kilometres (or feet; to_cf keeps the unit in crs_wkt) with x/y stored in m or km, and a metre CRS with x/y in m or km, all
     describe one grid.  Decided on the loaded area's own (CRS, extent, shape): its pixel (r, c), put through pyproj, is where
-    element (r, c) of the stored array is (the stored coordinates, converted to the unit of the exported CRS, put through pyproj)"""
+    element (r, c) of the stored array is (the stored coordinates, converted to the unit of the exported CRS, put through pyproj).
+    The geostationary grid mapping adds a third way of storing x/y: as scanning angles in radians (projection coordinate in metres
+    divided by the perspective point height in metres, which is what +h of the PROJ definition is whatever +units says); the CRS
+    may still count in metres, kilometres or feet, and the same grid stored in rad, m or km must load as that one grid"""
+    import itertools
+
     import pyproj
     import xarray as xr
     from pyresample.utils import load_cf_area
@@ -398,7 +403,20 @@ def suite_cf_crs_units(ctx):
              ("merc", {"proj": "merc", "lon_0": 0, "ellps": "WGS84"}, (1.0e6, 5.0e6)),
              ("utm33", {"proj": "utm", "zone": 33, "ellps": "WGS84"}, (4.0e5, 5.5e6)),
              ("lcc", {"proj": "lcc", "lat_1": 30, "lat_2": 60, "lat_0": 45, "lon_0": 10, "ellps": "WGS84"}, (-3.0e5, -2.0e5))]
-    for pname, proj, (ox, oy) in projs:
+
+    def geos_projs():
+        """geostationary CRSs (drawn after the other projections are done): satellite longitude, height, ellipsoid, sweep axis"""
+        for k in range(3 if ctx.quick else 8):
+            sat = r.choice([("msg", 0.0, 35785831.0, {"a": 6378169.0, "b": 6356583.8}, "y"), ("msg-iodc", 41.5, 35785831.0, {"a": 6378169.0, "b": 6356583.8}, "y"),
+                            ("goes-east", -75.0, 35786023.0, {"ellps": "GRS80"}, "x"), ("goes-west", -137.0, 35786023.0, {"ellps": "GRS80"}, "x"),
+                            ("himawari", 140.7, 35785863.0, {"ellps": "WGS84"}, "y"), ("generic", float(r.randrange(-179, 180)), float(r.randrange(35000000, 36500000)), {"ellps": "WGS84"}, r.choice("xy"))])
+            name, lon_0, hgt, ell, sweep = sat
+            # regional (inside the disk) and full-disk sized grids (corner pixels look past the limb)
+            centre = r.choice([(-1.5e6, 1.0e6), (2.0e6, -2.5e6), (0.0, 0.0), (-3.6e6, 1.5e6), (1.0e5, 3.9e6)])
+            yield f"geos-{name}", dict({"proj": "geos", "lon_0": lon_0, "h": hgt, "sweep": sweep}, **ell), centre
+
+    for pname, proj, (ox, oy) in itertools.chain(projs, geos_projs()):
+        geos = proj["proj"] == "geos"
         for crs_unit in (["m", "km"] + [r.choice(["us-ft", "ft"])] if ctx.quick else ["m", "km", "us-ft", "ft"]):
             um = UNIT_M[crs_unit]
             pd = dict(proj, units=crs_unit)
@@ -406,21 +424,32 @@ def suite_cf_crs_units(ctx):
                 w, h = r.randrange(2, 9), r.randrange(2, 9)
                 px, py = r.choice([1024.0, 2000.0, 3000.403165817]), r.choice([512.0, 2500.0, 3000.403165817])     # metres
                 x0, y0 = ox + r.randrange(-50, 50) * px, oy + r.randrange(-50, 50) * py
+                if geos and r.random() < 0.4:         # full-disk sized pixels: the grid spans the whole disk, corner pixels look past the limb
+                    px, py = r.choice([10.5e6, 11.0e6, 12.0e6]) / w, r.choice([10.5e6, 11.0e6, 12.0e6]) / h
+                    x0, y0 = -w * px / 2 + r.randrange(-1, 2) * px / 4, -h * py / 2 + r.randrange(-1, 2) * py / 4
                 ext = tuple(v / um for v in (x0, y0, x0 + w * px, y0 + h * py))       # in the unit of the CRS
                 area = _mk(pd, w, h, ext)
                 with warnings.catch_warnings():
                     warnings.simplefilter("ignore")
                     cf = area.crs.to_cf()
                 XC, YC = _centres(ext, (h, w))        # unit of the CRS
-                for coord_unit in ("m", "km"):
+                for coord_unit in (("rad", "m", "km") if geos else ("m", "km")):
                     xdesc, s2n = r.random() < 0.3, r.random() < 0.3
                     ex, ey = XC[0, :], YC[:, 0]
                     ex = ex[::-1] if xdesc else ex
                     ey = ey[::-1] if s2n else ey
-                    sx, sy = ex * um / UNIT_M[coord_unit], ey * um / UNIT_M[coord_unit]
+                    if coord_unit == "rad":
+                        # scanning angle = projection coordinate in metres / perspective point height in metres (the +h of the definition)
+                        sx, sy = ex * um / proj["h"], ey * um / proj["h"]
+                        ang = r.choice(["angular", "angular", "old"])      # CF >= 1.9 standard names, or the ones written before them
+                        xattrs = {"standard_name": "projection_x_angular_coordinate" if ang == "angular" else "projection_x_coordinate", "units": r.choice(["radians", "rad", "radian"])}
+                        yattrs = {"standard_name": "projection_y_angular_coordinate" if ang == "angular" else "projection_y_coordinate", "units": xattrs["units"]}
+                    else:
+                        sx, sy = ex * um / UNIT_M[coord_unit], ey * um / UNIT_M[coord_unit]
+                        xattrs = {"standard_name": "projection_x_coordinate", "units": coord_unit}
+                        yattrs = {"standard_name": "projection_y_coordinate", "units": coord_unit}
                     ds = xr.Dataset({"field": (("y", "x"), np.arange(h * w, dtype=float).reshape(h, w), {"grid_mapping": "crs"}), "crs": ((), 0, cf)},
-                                    coords={"x": ("x", sx, {"standard_name": "projection_x_coordinate", "units": coord_unit}),
-                                            "y": ("y", sy, {"standard_name": "projection_y_coordinate", "units": coord_unit})})
+                                    coords={"x": ("x", sx, xattrs), "y": ("y", sy, yattrs)})
                     how, kw = r.choice([("guessed", {"variable": "field"}), ("explicit", {"variable": "field", "y": "y", "x": "x"}), ("search", {})])
                     inp = {"projection": pname, "crs_units": crs_unit, "coordinate_units": coord_unit, "extent_in_crs_units": [float(v) for v in ext], "shape": [h, w],
                            "x_descending": xdesc, "y_south_to_north": s2n, "how": how}
@@ -442,6 +471,8 @@ def suite_cf_crs_units(ctx):
                             lo_e, la_e = _lonlat_of(pd, *np.meshgrid(ex, ey))
                             lo_g, la_g = _lonlat_of(got.crs, *_centres(got.area_extent, got.shape))
                         fin = np.isfinite(lo_e) & np.isfinite(lo_g)
+                        if geos:
+                            ctx.count("cf_units.geos." + ("all_pixels_on_disk" if np.isfinite(lo_e).all() else "some_pixels_on_disk" if np.isfinite(lo_e).any() else "no_pixel_on_disk"))
                         dl = np.abs((lo_g[fin] - lo_e[fin] + 180) % 360 - 180)
                         if not np.array_equal(np.isfinite(lo_e), np.isfinite(lo_g)):
                             probs.append(f"pixel (r, c) of the loaded area is not located where element (r, c) of the stored array is ({int((~np.isfinite(lo_g)).sum())} pixels of "
